@@ -427,7 +427,7 @@ func replay(path string) int {
 		for _, c := range c12DeepCases() {
 			if "C12/deep/"+c.name == v.Scenario {
 				var msg string
-				vrt.Execute(vrt.Options{}, func() { msg = c.run() })
+				vrt.Execute(vrt.Options{}, func() { msg = strings.Join(c.run(), "; ") })
 				if msg != "" {
 					fmt.Printf("VIOLATION property=C12 replay=%s\n  %s\n", path, msg)
 					return 1
@@ -444,7 +444,7 @@ func replay(path string) int {
 				hist = append(hist, o)
 			}
 		}
-		for variant := 0; variant < 3; variant++ {
+		for variant := 0; variant < 4; variant++ {
 			for _, ks := range orderedSubsets() {
 				conds := c12Conds(ks, variant)
 				if "C12/history/"+condStr(conds) != v.Scenario {
@@ -464,7 +464,7 @@ func replay(path string) int {
 		}
 	}
 	if v.Property == "C12" {
-		for variant := 0; variant < 6; variant++ {
+		for variant := 0; variant < 8; variant++ {
 			for _, ks := range orderedSubsets() {
 				conds := c12Conds(ks, variant)
 				if "C12/"+condStr(conds) != v.Scenario {
